@@ -1,6 +1,22 @@
 ----------------------------- MODULE Gen_Sandbox -----------------------------
 (* Behaviour generation: simulate Sandbox (a backing state, then MaxOps calls) and dump each        *)
-(* behaviour's history as JSON: hist[1] = the backing state, hist[2..] = the calls.                 *)
+(* behaviour's history as JSON: hist[1] = the backing state and the utxo pool, hist[2..] = the      *)
+(* calls.                                                                                           *)
+(* TLC's simulator first draws one of the syntactic sub-actions of the next-state relation, so the  *)
+(* transfers (one sub-action in Sandbox!Step) are rare among the key/value calls.  TW > 0 adds TW    *)
+(* further transfer sub-actions, each with one randomly drawn (sender, recipient, amount) -          *)
+(* RandomElement is deterministic under -seed and keeps the number of successors built per step      *)
+(* small: transfer-heavy programs with several failing and succeeding transfers of all senders in    *)
+(* one execution.  Two of three draws take a holding sender, every other one a small amount, so that *)
+(* successes are not drowned by failures (the unknown sender, zero and too large amounts stay in).   *)
 EXTENDS Sandbox, Json
+CONSTANT TW
+GenNext == \/ Next
+           \/ \E w \in 1..TW :
+                 LET f   == RandomElement(IF w % 3 = 0 THEN Froms ELSE {"a", "b"})
+                     to  == RandomElement(Tos)
+                     amt == RandomElement(IF w % 2 = 0 THEN 1..2 ELSE 0..MaxAmt(NU))
+                 IN NU > 0 /\ Transfer(f, to, amt, InOrderSel, FALSE)
+GenSpec == Init /\ [][GenNext]_vars
 Dump == nops < MaxOps \/ (JsonSerialize("out/b_" \o ToString(TLCGet("stats").traces) \o ".json", hist) /\ FALSE)
 =============================================================================
